@@ -98,7 +98,7 @@ def run(ck):
 
     # (2) random longer sources over the rich alphabet (tabs, other whitespace, \r\n, multi-line
     #     tags, comment / raw bodies with delimiter look-alikes), all four settings each
-    n = 2500 if quick else 60000
+    n = 1200 if quick else 40000
     allcfgs = cfgs + four_cfgs(keep=True) + four_cfgs(nl="rn")
     by_name.update({c["name"]: c for c in allcfgs})
     total = 0
